@@ -57,7 +57,13 @@ Mk(ctor, a, k, l1, l2, lo, up, cap, f) ==
     [ctor |-> ctor, a |-> a, k |-> k, l1 |-> l1, l2 |-> l2, lo |-> lo, up |-> up, cap |-> cap, afail |-> f]
 On(ct, S) == IF ct \in Ctors THEN S ELSE {}
 \* every fault, for the small lengths: |reported - actual| <= 2, k = 1..calls+1 (0: no panic)
+\* 97 stands for a reported length whose byte size wraps around the address space (usize::MAX / size_of::<T>() + 1):
+\* an over-report like any other, which must be refused before a block is requested
+Wrap == 97
 FaultCases ==
+    On("fhi", {Mk("fhi", a, 0, Wrap, Wrap, Wrap, Wrap, a, FALSE) : a \in FaultLens}) \cup
+    On("thin", {Mk("thin", a, 0, Wrap, Wrap, Wrap, Wrap, a, FALSE) : a \in FaultLens}) \cup
+    On("collect", {Mk("collect", a, 0, Wrap, Wrap, Wrap, Wrap, a, FALSE) : a \in FaultLens}) \cup
     On("fhi", UNION {{Mk("fhi", a, k, l, l, l, l, a, f) : k \in 0..(a + 2), l \in Near(a), f \in BOOLEAN} : a \in FaultLens}) \cup
     On("thin", UNION {{Mk("thin", a, k, l1, l2, l1, l1, a, FALSE) : k \in 0..(a + 2), l1 \in Near(a), l2 \in Near(a)} : a \in FaultLens}) \cup
     On("collect", UNION {{Mk("collect", a, k, lo, l2, lo, up, a, FALSE) :
